@@ -773,7 +773,15 @@ def xenum(prop, tier, seed, t0):
     return automata_check(prop, tier, seed, t0, {"XENUM"}, [Scenario("xenum-steps", lines)])
 
 
-REGISTRY = {"XENUM": xenum, "C17": c17, "C11": c11, "C12": c12, "C13": c13, "C14": c14, "C15": c15, "C16": c16, "C01": c01, "C02": c02, "C03": c03, "C04": c04, "C05": c05, "C06": c06, "C07": c07, "C08": c08, "C09": c09, "C10": c10, "C18": c18, "C19": c19}
+def xglue(prop, tier, seed, t0):
+    """Extension beyond the listed properties (not registered): the documented frame-processing flow of the
+    Darwin daemon - what a frame does to the session table and RepeatBand - against Automata!GlueTable /
+    TickPacing, on the schedules of C12."""
+    import acampaigns
+    return automata_check(prop, tier, seed, t0, {"XGLUE", "C16"}, acampaigns.campaign_c12(seed, tier)[:40])
+
+
+REGISTRY = {"XGLUE": xglue, "XENUM": xenum, "C17": c17, "C11": c11, "C12": c12, "C13": c13, "C14": c14, "C15": c15, "C16": c16, "C01": c01, "C02": c02, "C03": c03, "C04": c04, "C05": c05, "C06": c06, "C07": c07, "C08": c08, "C09": c09, "C10": c10, "C18": c18, "C19": c19}
 
 
 # =========================================================================== replay
